@@ -144,6 +144,12 @@ func (p *Program) FuncNames() []string {
 
 // lookupType finds a named type by "pkgname.Type" among all loaded packages.
 func (p *Program) lookupType(q string) types.Type {
+	if strings.HasPrefix(q, "[]") {
+		if et := p.lookupType(q[2:]); et != nil {
+			return types.NewSlice(et)
+		}
+		return nil
+	}
 	ptr := 0
 	for strings.HasPrefix(q, "*") {
 		ptr++
